@@ -442,9 +442,18 @@ fn task_reject(
                 return false;
             }
         }
+        TaskRuntimeState::RunningMultiNode(ws) => {
+            // The root refused to start the task (e.g. its remaining lifetime got too short
+            // while the message was on its way); release all reserved workers
+            if ws[0] != worker_id {
+                log::debug!("Rejection from invalid worker");
+                return false;
+            }
+            let ws = ws.clone();
+            reset_mn_task_workers(worker_map, &ws, task_id);
+        }
         TaskRuntimeState::Waiting { .. }
         | TaskRuntimeState::Running { .. }
-        | TaskRuntimeState::RunningMultiNode(_)
         | TaskRuntimeState::Finished => {
             unreachable!()
         }
